@@ -159,6 +159,71 @@ func VerifC05_StopProtocol() {
 	rt.Reach("protocol-end")
 }
 
+// ---- the stop sequence under one preemption at any synchronisation operation
+// (G2): an item that reacts to the cancelled context at once must not complete
+// the stop before the stop routine has run ----
+
+func VerifC05_StopRace() {
+	rt.NoTimers()
+	rt.SchedYieldOnly(true)
+	if rt.Thorough() {
+		rt.Preemptions(2)
+	} else {
+		rt.Preemptions(1)
+	}
+	SetStdErrReporting(false)
+	c05Reset()
+	moduleStopTimeout = time.Hour
+	var order []string
+	var m *Module
+	stopFn := func() error {
+		order = append(order, "stopfn-begin")
+		rt.NativePause()
+		order = append(order, "stopfn-end")
+		return nil
+	}
+	m = initNewModule("m", nil, nil, stopFn)
+	m.status = StatusOnline
+	close(m.startComplete)
+	// natively the race window (between cancelling the context and starting
+	// the stop routine) is widened instead of being scheduled
+	cancel := m.cancelCtx
+	m.cancelCtx = func() {
+		cancel()
+		rt.NativePause()
+	}
+	began, returned := false, false
+	kind := rt.Choice("kind", 3)
+	body := func(ctx context.Context) error {
+		began = true
+		<-ctx.Done()
+		returned = true
+		return nil
+	}
+	switch kind {
+	case 0:
+		m.StartWorker("w", body)
+	case 1:
+		m.StartServiceWorker("sw", 0, body)
+	case 2:
+		m.StartHighPriorityMicroTask("mt", body)
+	}
+	rt.Yield()
+	if !began {
+		// the item has not started yet: it is not a running item (covered by
+		// the stop protocol harness)
+		return
+	}
+	reports := make(chan *report)
+	m.stop(reports)
+	rep := <-reports
+	rt.Assert(len(order) == 2, "stoprace/stop-routine-returned-before-report")
+	rt.Assert(returned, "stoprace/running-item-returned-before-report")
+	rt.Assert(m.Status() == StatusOffline, "stoprace/offline-at-report")
+	rt.Assert(rep.err == nil, "stoprace/no-error")
+	rt.Reach("stoprace-end")
+}
+
 // the dependency keeps waiting while the dependent is stopping
 func VerifC05_DependencyWaits() {
 	m := initNewModule("m", nil, nil, nil)
